@@ -59,7 +59,7 @@ type rcCfg struct {
 	Workers  int   `json:"workers"` // 0 = default
 	Cancel   bool  `json:"cancel"`
 	PanicOpt bool  `json:"panic_opt"`
-	Tree     int   `json:"tree"` // 0 stand-alone | 1 root{P} | 2 root{O, sub{P}} | 3 root{mid{O, leaf{P}}}
+	Tree     int   `json:"tree"` // 0 stand-alone | 1 root{P,S*} | 2 root{O, sub{P,S*}} | 3 root{mid{O, leaf{P,S*}}}; S* = 1-3 sibling pools
 	Conc     bool  `json:"concurrent"`
 }
 
@@ -189,6 +189,10 @@ type rcResult struct {
 	Ran             int            `json:"ran"`
 	Cancelled       int            `json:"cancelled"`
 	GroupShutEarly  int            `json:"group_shutdown_returned_while_busy"`
+
+	IndivStopped        int `json:"sibling_pools_shut_down_individually"`
+	MixedGroupShutdowns int `json:"group_shutdowns_over_stopped_and_running_pools"`
+	StoppedByGroup      int `json:"pools_verified_stopped_after_group_shutdown"`
 }
 
 func runRC(cfg rcCfg) (res rcResult) {
@@ -254,21 +258,28 @@ func runRC(cfg rcCfg) (res rcResult) {
 		allPools = append(allPools, p)
 		return p
 	}
+	// siblings S* share P's group (1-3 of them, a seeded number created before P); O sits in an ancestor group
+	var others []*rcPool
+	nSib, nBefore := 0, 0
+	if cfg.Tree >= 1 {
+		nSib = 1 + rng.Intn(3)
+		nBefore = rng.Intn(nSib + 1)
+	}
+	for i := 0; i < nBefore; i++ {
+		others = append(others, mkPool(fmt.Sprintf("S%d", i), len(groups)-1, 1+rng.Intn(2)))
+	}
 	P := mkPool("P", len(groups)-1, cfg.Workers)
 	if P.grp < 0 {
 		P.pool.Start()
 	}
-	var O *rcPool
+	for i := nBefore; i < nSib; i++ {
+		others = append(others, mkPool(fmt.Sprintf("S%d", i), len(groups)-1, 1+rng.Intn(2)))
+	}
 	if cfg.Tree >= 2 {
-		O = mkPool("O", cfg.Tree-2, 2)
+		others = append(others, mkPool("O", cfg.Tree-2, 2))
 	}
 	W := P.pool.WorkerCount()
-	live := func() []*rcPool {
-		if O != nil {
-			return []*rcPool{P, O}
-		}
-		return []*rcPool{P}
-	}
+	live := func() []*rcPool { return append([]*rcPool{P}, others...) }
 	scopeOf := func(gi int) (s []*rcPool) {
 		for _, p := range live() {
 			if p.grp >= gi {
@@ -634,10 +645,12 @@ func runRC(cfg rcCfg) (res rcResult) {
 			gated = append(gated, t)
 			submit(t)
 		}
-		if O != nil && rng.Intn(2) == 0 {
-			t := newTask(O, true, false)
-			gated = append(gated, t)
-			submit(t)
+		for _, o := range others {
+			if o.pool.IsRunning() && rng.Intn(3) == 0 {
+				t := newTask(o, true, false)
+				gated = append(gated, t)
+				submit(t)
+			}
 		}
 		waitQuiescent()
 		if !inv(at + ", gated tasks submitted") {
@@ -662,6 +675,21 @@ func runRC(cfg rcCfg) (res rcResult) {
 		mode := modes[cy]
 		res.ShutdownMode[mode]++
 		gi := -1
+		// some of the other running pools (siblings in P's group, O in an ancestor group) are shut down individually first
+		// (idle or with a task held)
+		for _, o := range others {
+			if o.pool.IsRunning() && rng.Intn(3) == 0 {
+				o := o
+				if s := do(sh, func() { o.pool.Shutdown() }); s != gdump.Returned {
+					viol("shutdown-call-never-returns", "Shutdown() of pool %s is parked for ever (cycle %d)", o.name, cy)
+					bail()
+					return
+				}
+				o.sdCalled = true
+				res.IndivStopped++
+			}
+		}
+		var mustStop []*rcPool // group mode: pools that Group.Shutdown has to stop
 		var rejected []*rcTask
 		startedActors := func() {} // concurrent flavour: what the barrier releases
 		var waitRet, sdRet atomic.Uint64
@@ -717,6 +745,29 @@ func runRC(cfg rcCfg) (res rcResult) {
 			}
 		case "group":
 			gi = rng.Intn(len(groups))
+			// a pool has to be stopped by this call if no group on the path from the group down to the pool had been shut
+			// down before (a second Shutdown of a group is a no-op apart from the wait)
+			stoppedBelow, runningBelow := 0, 0
+			for _, p := range scopeOf(gi) {
+				fresh := true
+				for j := gi; j <= p.grp; j++ {
+					fresh = fresh && !groups[j].IsShutdown()
+				}
+				if fresh {
+					mustStop = append(mustStop, p)
+					if p.pool.IsRunning() {
+						runningBelow++
+					}
+				}
+			}
+			for _, p := range allPools {
+				if p.grp >= gi && !p.pool.IsRunning() {
+					stoppedBelow++
+				}
+			}
+			if len(mustStop) > 0 && stoppedBelow > 0 && runningBelow > 0 {
+				res.MixedGroupShutdowns++
+			}
 			for _, p := range scopeOf(gi) {
 				p.sdCalled = true
 			}
@@ -772,8 +823,8 @@ func runRC(cfg rcCfg) (res rcResult) {
 			for s := range extra {
 				for i := 0; i < 4+rng.Intn(8); i++ {
 					tp := P
-					if O != nil && rng.Intn(4) == 0 {
-						tp = O
+					if len(others) > 0 && rng.Intn(4) == 0 {
+						tp = others[rng.Intn(len(others))] // possibly a stopped one: rejected
 					}
 					extra[s] = append(extra[s], newTask(tp, false, rng.Intn(4) == 0))
 				}
@@ -861,6 +912,14 @@ func runRC(cfg rcCfg) (res rcResult) {
 			bail()
 			return
 		}
+		for _, p := range mustStop {
+			if p.pool.IsRunning() {
+				viol("group/pool-running-after-group-shutdown", "Group(%s).Shutdown() returned (%s; the group had not been shut down before) but pool %s below it still reports IsRunning(): it was never shut down (pool objects below the group in creation order, present state: %s)", gname[gi], at, p.name, poolStates(allPools, gi))
+				bail()
+				return
+			}
+			res.StoppedByGroup++
+		}
 		// pools that are still running here (Group.Shutdown of a group that had been shut down before does not stop them):
 		// everything accepted has finished, then they are stopped directly at idle
 		for _, p := range live() {
@@ -910,6 +969,24 @@ func runRC(cfg rcCfg) (res rcResult) {
 				bail()
 				return
 			}
+		}
+		// after a group shutdown nothing is accepted below the group any more
+		if len(mustStop) > 0 {
+			for _, p := range mustStop {
+				p := p
+				rt := &rcTask{p: p}
+				rejected = append(rejected, rt)
+				if s := do(sub, func() { p.pool.Submit(body(rt)) }); s != gdump.Returned {
+					viol("submit-never-returns", "Submit on pool %s after Group.Shutdown() is parked for ever (%s)", p.name, at)
+					bail()
+					return
+				}
+				res.Rejected++
+				if sub.TakePanic() != "" {
+					res.Recovered++
+				}
+			}
+			waitQuiescent()
 		}
 		for _, t := range rejected {
 			if t.runs.Load() != 0 {
@@ -969,6 +1046,9 @@ func runRC(cfg rcCfg) (res rcResult) {
 			return
 		}
 		for _, p := range live() {
+			if p != P && p.sdCalled && rng.Intn(2) == 0 {
+				continue // stays stopped over the next cycle(s)
+			}
 			if p != P && p.sdCalled {
 				if s := do(st, func() { p.pool.Start() }); s != gdump.Returned {
 					viol("start-never-returns", "Start() of pool %s after a completed group shutdown is parked for ever (%s)", p.name, at)
@@ -1005,4 +1085,19 @@ func runRC(cfg rcCfg) (res rcResult) {
 		res.Cancelled += f
 	}
 	return
+}
+
+// poolStates lists the pool objects at or below group index gi in creation order with their present state.
+func poolStates(all []*rcPool, gi int) string {
+	var b strings.Builder
+	for _, p := range all {
+		if p.grp >= gi {
+			st := "stopped"
+			if p.pool.IsRunning() {
+				st = "running"
+			}
+			fmt.Fprintf(&b, "%s@g%d=%s ", p.name, p.grp, st)
+		}
+	}
+	return b.String()
 }
